@@ -267,8 +267,8 @@ class Extract:
         flush_text(body[pos:])
         if buf:
             out.append(Line(buf, "repo", self.file, cur_line, fnname))
-        # impl wrapper
-        if self.impl:
+        # impl wrapper (a lifted arm is a free function)
+        if self.impl and not self.arm:
             ty = self.impl.split(" for ")[-1].strip()
             out.insert(0, Line(f"impl {ty} {{", "repo", self.file, line_of(src, loc["impl_range"][0]), fnname))
             out.append(Line("}", "repo", self.file, line_of(src, loc["impl_range"][2]), fnname))
